@@ -59,23 +59,33 @@ TtcMemberLists ==
 \* damage: none, or one patched field
 Damages == {"none", "lenPastEof", "offPastEof", "offAtEof", "memberPastEof", "truncDir"}
 
-Cases ==
-       {[kind |-> "sfnt", tables |-> t, members |-> <<[flavor |-> f, dir |-> d]>>, order |-> o, gaps |-> g,
-         zipped |-> {}, major |-> 1, damage |-> dm] :
-          t \in ContentSets, f \in Flavors, d \in Dirs, o \in {Orders1 \in Orders : Thorough \/ Orders1[1] # 2},
-          g \in {gm \in GapMaps : Thorough \/ gm[2] = gm[3]},
-          dm \in {"none", "lenPastEof", "offPastEof", "offAtEof", "truncDir"}}
-  \cup {[kind |-> "ttc", tables |-> t, members |-> [k \in 1 .. Len(ml) |-> [flavor |-> MagicTTF, dir |-> ml[k]]],
-         order |-> o, gaps |-> g, zipped |-> {}, major |-> mj, damage |-> dm] :
-          t \in ContentSets, ml \in TtcMemberLists, o \in {Orders1 \in Orders : Thorough \/ Orders1[1] = 1},
-          g \in {gm \in GapMaps : gm[1] = gm[2] /\ gm[2] = gm[3]}, mj \in {1, 2},
-          dm \in {"none", "memberPastEof", "lenPastEof"}}
-  \cup {[kind |-> "woff", tables |-> t, members |-> <<[flavor |-> f, dir |-> d]>>, order |-> o, gaps |-> g,
-         zipped |-> z, major |-> 1, damage |-> dm] :
-          t \in ContentSets, f \in Flavors, d \in {dd \in Dirs : Thorough \/ Len(dd) # 2},
-          o \in {Orders1 \in Orders : Thorough \/ Orders1[1] = 3},
-          g \in {gm \in GapMaps : gm[1] = gm[2] /\ gm[2] = gm[3]}, z \in SUBSET {1, 2, 3},
-          dm \in {"none", "lenPastEof"}}
+\* The universe of cases, as three families.  Init draws a case through nested quantifiers instead of
+\* c \in (one big union set): TLC then enumerates initial states one by one and never has to build and
+\* normalise a set of ~200 000 nested records (which took > 15 min single-threaded in the thorough tier).
+SfntCase(t, f, d, o, g, dm) ==
+  [kind |-> "sfnt", tables |-> t, members |-> <<[flavor |-> f, dir |-> d]>>, order |-> o, gaps |-> g,
+   zipped |-> {}, major |-> 1, damage |-> dm]
+TtcCase(t, ml, o, g, mj, dm) ==
+  [kind |-> "ttc", tables |-> t, members |-> [k \in 1 .. Len(ml) |-> [flavor |-> MagicTTF, dir |-> ml[k]]],
+   order |-> o, gaps |-> g, zipped |-> {}, major |-> mj, damage |-> dm]
+WoffCase(t, f, d, o, g, z, dm) ==
+  [kind |-> "woff", tables |-> t, members |-> <<[flavor |-> f, dir |-> d]>>, order |-> o, gaps |-> g,
+   zipped |-> z, major |-> 1, damage |-> dm]
+
+SfntOrders == {Orders1 \in Orders : Thorough \/ Orders1[1] # 2}
+SfntGaps   == {gm \in GapMaps : Thorough \/ gm[2] = gm[3]}
+TtcOrders  == {Orders1 \in Orders : Thorough \/ Orders1[1] = 1}
+FlatGaps   == {gm \in GapMaps : gm[1] = gm[2] /\ gm[2] = gm[3]}
+WoffDirs   == {dd \in Dirs : Thorough \/ Len(dd) # 2}
+WoffOrders == {Orders1 \in Orders : Thorough \/ Orders1[1] = 3}
+
+IsCase(x) ==
+  \/ \E t \in ContentSets, f \in Flavors, d \in Dirs, o \in SfntOrders, g \in SfntGaps,
+        dm \in {"none", "lenPastEof", "offPastEof", "offAtEof", "truncDir"} : x = SfntCase(t, f, d, o, g, dm)
+  \/ \E t \in ContentSets, ml \in TtcMemberLists, o \in TtcOrders, g \in FlatGaps, mj \in {1, 2},
+        dm \in {"none", "memberPastEof", "lenPastEof"} : x = TtcCase(t, ml, o, g, mj, dm)
+  \/ \E t \in ContentSets, f \in Flavors, d \in WoffDirs, o \in WoffOrders, g \in FlatGaps, z \in SUBSET {1, 2, 3},
+        dm \in {"none", "lenPastEof"} : x = WoffCase(t, f, d, o, g, z, dm)
 
 Intact(x) ==
   CASE x.kind = "sfnt" -> WriteSfnt(x.tables, x.members[1], x.order, x.gaps)
@@ -101,7 +111,7 @@ Damaged(x) ==
     [] x.damage = "truncDir"      -> IF n > 20 THEN SubSeq(bs, 1, 12 + 8) ELSE bs   \* directory cut short
 
 ---------------------------------------------------------------------------
-Init == /\ c \in Cases
+Init == /\ IsCase(c)
         /\ done = FALSE
 Next == /\ ~done /\ done' = TRUE /\ UNCHANGED c
 Spec == Init /\ [][Next]_vars
